@@ -578,6 +578,59 @@ R.contract(
     bounded_note="lists of up to 2 items, objects with up to 2 members",
 )
 
+
+# ------------------------------------------------------------------------------------------------- RequestsTransport.send: what the HTTP library is asked to send is the serialized case
+def _serialized_case(it, obj, a, k):
+    d = {"method": "POST", "url": Str.make(it, it.path.fresh("url")), "cookies": None, "headers": fresh_opaque(it, "FinalHeaders"), "params": None}
+    if it.path.choose([(False, True), (True, True)], "has-body"):
+        d["json"] = fresh_opaque(it, "JsonBody")
+    it.ghost["serialized"] = dict(d)
+    it.ghost["serialize_kwargs"] = dict(k)
+    return d
+
+
+def _session_request(it, obj, a, k):
+    it.ghost["requested"] = dict(k)
+    it.ghost["requested_through"] = obj
+    resp = fresh_opaque(it, "RequestsResponse")
+    it.ghost["library_response"] = resp
+    return resp
+
+
+R.nominal_methods["spec:SendingTransport"] = {"serialize_case": _serialized_case}
+R.nominal_methods["spec:UserSession"] = {"request": _session_request, "close": lambda it, obj, a, k: it.ghost.__setitem__("closed", it.ghost["closed"] + [obj])}
+R.extern["requests.Session"] = lambda it, a, k: it.ghost.__setitem__("own_session", __import__("pyvc.values", fromlist=["VObj"]).VObj(it.resolve_class("spec:UserSession"), {"own": True})) or it.ghost["own_session"]
+R.contract("schemathesis.core.rate_limit:ratelimit", args={"rate_limiter": Opq("Any"), "base_url": Opq("Any")}, trusted=True,
+           returns=lambda it, env: __import__("pyvc.values", fromlist=["VObj"]).VObj(it.resolve_class("spec:nullcontext"), {}), note="waits for the rate limiter; a null context")
+R.context_managers["nullcontext"] = lambda it, cm, item, rest, body, env: it.with_items(rest, body, env)
+R.contract(TR + "validate_vanilla_requests_kwargs", args={"data": Opq("Any")}, returns=NoneT, raises=["RuntimeError"], trusted=True, note="rejects a relative URL without a session")
+R.contract("schemathesis.core.transport:Response.from_requests", args={"cls": Opq("Any"), "response": Opq("Any"), "verify": Opq("Any")}, trusted=True,
+           returns=lambda it, env: ("response-of", env["response"], env["verify"]), note="wraps the library's response")
+R.contract(
+    TR + "RequestsTransport.send",
+    prop="C06",
+    args={"self": Obj("spec:SendingTransport"), "case": Obj("spec:SentCase", operation=Obj("spec:SentOp", schema=Obj("spec:SentSchema", rate_limiter=NoneT, base_url=Str))),
+          "session": OneOf(NoneT, Obj("spec:UserSession", own=Const(False))),
+          "kwargs": DictOf(optional={"base_url": Str, "timeout": Int, "verify": Bool, "headers": Opq("ExtraHeaders"), "cert": Str})},
+    ghost={"serialized": None, "serialize_kwargs": None, "requested": None, "requested_through": None, "own_session": None, "closed": [], "library_response": None},
+    raises=["RuntimeError"],
+    ensures={
+        # the request on the wire: every part of the serialized case is handed to the HTTP library unchanged - transport options (timeout, verify, cert ...) are added
+        # next to them and can never replace a part of the case (the extra headers were already merged by serialize_case)
+        "every_serialized_part_is_sent_unchanged": "all(k in ghost('requested') and same(ghost('requested')[k], ghost('serialized')[k]) for k in ghost('serialized'))",
+        "only_transport_options_are_added": "all(k in ghost('serialized') or (k in kwargs and k != 'base_url' and same(ghost('requested')[k], kwargs[k])) or (k == 'timeout' and 'timeout' not in kwargs) "
+                                            "for k in ghost('requested')) and all(k in ghost('requested') for k in kwargs if k != 'base_url') and 'timeout' in ghost('requested')",
+        "serialize_case_sees_the_callers_options": "all(k in ghost('serialize_kwargs') for k in kwargs)",
+        # C14: the request goes through the session it was given (the engine's session carries the configured auth / headers / TLS settings); a private one is closed again
+        "sent_through_the_given_session": "implies(session is not None, ghost('requested_through') is session and length(ghost('closed')) == 0)",
+        "a_private_session_is_closed": "implies(session is None, ghost('requested_through') is ghost('own_session') and length(ghost('closed')) == 1)",
+        "the_librarys_response_is_returned": "result[0] == 'response-of' and result[1] is ghost('library_response') and same(result[2], kwargs['verify'] if 'verify' in kwargs else True)",
+    },
+    raises_ensures={"rejected_only_without_a_session": "raised == 'RuntimeError' and session is None and ghost('requested') is None"},
+    bounded_note="five transport options",
+    replayable=False,
+)
+
 LEVEL_TEXT = ("Deductive: each style encoder against the wire form of the OpenAPI serialization table, serialize_case's query/cookie/method/url pass-through; "
               "arrays/objects explored up to a small size (labelled bounded). URL composition and the requests library are trusted. Level other.")
 LEVEL_NOTE = "Trusted: requests (E4), str.join/split inversion and urllib (E5), pyvc semantics (E9)."
